@@ -25,6 +25,20 @@ func c12Check(c MetricCase) (r evid.Result) {
 	r.Class(litRight, "literal-right")
 	r.Class(!litLeft && !litRight, "vector-vector")
 	r.Class(c.Params.Instant(), "instant")
+	hasVector := false
+	var walk func(x *gen.Metric)
+	walk = func(x *gen.Metric) {
+		if x == nil {
+			return
+		}
+		hasVector = hasVector || x.Kind == "vector"
+		walk(x.L)
+		walk(x.R)
+		walk(x.Inner)
+	}
+	walk(m)
+	r.Class(hasVector, "vector-function")
+	r.Class(hasVector && (litLeft || litRight) && !c.Params.Instant(), "vector-function-with-literal-over-range")
 
 	// Overlap of the two sides at some step.
 	properOverlap := false
@@ -70,7 +84,18 @@ func c12Gen(t *rapid.T) MetricCase {
 	d := datagen.GenMetricDataN(t, 30, false, true, false, 2, 6)
 	opts := datagen.RangeOpts{KeepStage: true, NoOffset: true, Wide: true, Funcs: []string{"count_over_time", "bytes_over_time", "sum_over_time", "max_over_time"}}
 	exact := false // comparisons and % amplify a last-bit difference into 0/1: integer-valued sides only
+	genVector := func(label string) *gen.Metric {
+		v := rapid.SampledFrom([]struct {
+			text string
+			v    float64
+		}{{"0", 0}, {"1", 1}, {"2", 2}, {"0.5", 0.5}, {"10", 10}, {"1.5", 1.5}, {"3", 3}, {"1e2", 100}}).Draw(t, label+"-vector")
+		return &gen.Metric{Kind: "vector", Value: v.v, ValueText: v.text}
+	}
 	mkSide := func(label string) *gen.Metric {
+		// vector(c): a one-sample vector with the empty label set, the same at every step.
+		if rapid.IntRange(0, 7).Draw(t, label+"-vector-side") == 0 {
+			return genVector(label)
+		}
 		o := opts
 		aggs := []string{"sum", "max", "count", "avg"}
 		if exact {
@@ -128,7 +153,7 @@ func c12Gen(t *rapid.T) MetricCase {
 			m.R = mkSide("r")
 		}
 		// Restrict one side by a selector so that the overlap is proper.
-		if rapid.Bool().Draw(t, "restrict") && len(d.GroupLabels) > 0 {
+		if rapid.Bool().Draw(t, "restrict") && len(d.GroupLabels) > 0 && m.R.Kind != "vector" {
 			side := m.R
 			for side.Kind == "vecagg" {
 				side = side.Inner
@@ -160,18 +185,36 @@ func c12Gen(t *rapid.T) MetricCase {
 			}
 		}
 	}
+	// Sometimes a vector side gets "or vector(c)": steps where the side is empty are filled.
+	if kind != "set" && rapid.IntRange(0, 5).Draw(t, "or-vector") == 0 {
+		fill := func(side *gen.Metric, label string) *gen.Metric {
+			if side.Kind == "literal" || side.Kind == "vector" {
+				return side
+			}
+			return &gen.Metric{Kind: "binop", Op: "or", L: side, R: genVector(label), Parens: 1}
+		}
+		if rapid.Bool().Draw(t, "or-vector-left") {
+			m.L = fill(m.L, "ovl")
+		} else {
+			m.R = fill(m.R, "ovr")
+		}
+	}
 	// Sometimes one side is itself a (parenthesised) division or modulo by a literal - 0 included,
 	// so that NaN values meet the outer operator.
 	if kind != "set" && rapid.IntRange(0, 3).Draw(t, "nested-nan") == 0 {
 		wrap := func(side *gen.Metric, label string) *gen.Metric {
-			if side.Kind == "literal" {
+			if side.Kind == "literal" || side.Kind == "vector" {
 				return side
 			}
 			lit := rapid.SampledFrom([]struct {
 				text string
 				v    float64
 			}{{"0", 0}, {"0", 0}, {"1", 1}, {"2", 2}}).Draw(t, label+"-divisor")
-			inner := &gen.Metric{Kind: "binop", Op: rapid.SampledFrom([]string{"/", "%"}).Draw(t, label+"-op"), L: side,
+			ops := []string{"/"}
+			if exact {
+				ops = []string{"/", "%"} // a modulo of an order-dependent float sum is not reproducible to the last bit
+			}
+			inner := &gen.Metric{Kind: "binop", Op: rapid.SampledFrom(ops).Draw(t, label+"-op"), L: side,
 				R: &gen.Metric{Kind: "literal", Value: lit.v, ValueText: lit.text}, Parens: 1}
 			return inner
 		}
